@@ -70,16 +70,22 @@ func (c *wsConn) tryDelete(s *Subscription) {
 	s.traverse(gcStateDelete, func(s *Subscription, state gcState) gcState {
 		r := refs[s.RID()]
 
-		if r.state >= gcStateKeep {
+		// Stop if already kept as sent, or if kept as unsent and not reached
+		// through a subscription that stays sent.
+		if r.state == gcStateKeep || (r.state == gcStateUnsend && state != gcStateKeep) {
 			return gcStateStop
 		}
 
-		if r.indirect > 0 || state == gcStateKeep {
-			if sent && r.indirectsent == 0 {
+		if r.indirect > 0 || state >= gcStateKeep {
+			// The subscription is kept. It is no longer sent to the client
+			// if the root was, and neither a sent subscription outside of
+			// the traversed ones, nor the kept one it is reached through,
+			// holds it as sent.
+			if sent && r.indirectsent == 0 && state != gcStateKeep {
 				r.state = gcStateUnsend
-			} else {
-				r.state = gcStateKeep
+				return gcStateUnsend
 			}
+			r.state = gcStateKeep
 			return gcStateKeep
 		}
 
@@ -92,12 +98,16 @@ func (c *wsConn) tryDelete(s *Subscription) {
 	})
 
 	for rid, ref := range refs {
-		switch ref.state {
-		case gcStateDelete:
+		if ref.state == gcStateDelete {
 			verifCount("gc.delete")
 			ref.sub.Dispose()
 			delete(c.subs, rid)
-		case gcStateUnsend:
+		}
+	}
+	// Unsend resets the sent count, so it must follow the count down by the
+	// disposed subscriptions.
+	for _, ref := range refs {
+		if ref.state == gcStateUnsend {
 			verifCount("gc.unsend")
 			ref.sub.Unsend()
 		}
